@@ -269,11 +269,10 @@ package providers
 //@     invariant !useGroupsResource ==> (forall i :: 0 <= i && i < $i ==> cachedNonMember(C.tag, C.pay, allGroups[i], email) || (exists j :: 0 <= j && j < len(groups) && groups[j] == allGroups[i]))
 
 //@ func (p *AmazonCognitoProvider) GetUserProfile(AccessToken string) (*getCognitoUserProfileResponse, error)
-//@   trusted
 //@   modifies clock
 //@   fresh result.0
-//@   ensures result.1 == nil ==> result.0 != nil
-//@   ensures result.1 != nil ==> result.0 == nil
+//@   ensures [C17 C10] profile_or_error: (result.1 == nil ==> result.0 != nil && called(@amazonCognitoRequest#1) && @amazonCognitoRequest#1 == nil) && (result.1 != nil ==> result.0 == nil)
+//@   ensures [C17 C10] asked_with_this_token: called(@amazonCognitoRequest#1) ==> arg(@amazonCognitoRequest#1, 1) == "GET" && AccessToken != ""
 
 //@ interface CognitoAdminProvider.CheckMemberships(userName string) ([]string, error)
 //@   modifies clock
